@@ -479,9 +479,17 @@ func applyHandle[B interface {
 		case c.K == "errs0":
 			b = b.HandleErrors() // a registration call with an empty list: no condition is configured
 		case c.K == "errs":
-			b = b.HandleErrors(append([]error{c.E}, c.Es...)...)
+			{
+				sc := regErrs(c)
+				b = b.HandleErrors(sc...)
+				scribble(sc)
+			}
 		case c.K == "types":
-			b = b.HandleErrorTypes(append([]any{c.T}, c.Ts...)...)
+			{
+				sc := regTypes(c)
+				b = b.HandleErrorTypes(sc...)
+				scribble(sc)
+			}
 		case c.K == "result":
 			b = b.HandleResult(c.V)
 		default:
@@ -593,9 +601,17 @@ func (env *Env) build(i int, s Spec) failsafe.Policy[int] {
 		for _, c := range s.Abort {
 			switch c.K {
 			case "errs":
-				b = b.AbortOnErrors(append([]error{c.E}, c.Es...)...)
+				{
+					sc := regErrs(c)
+					b = b.AbortOnErrors(sc...)
+					scribble(sc)
+				}
 			case "types":
-				b = b.AbortOnErrorTypes(append([]any{c.T}, c.Ts...)...)
+				{
+					sc := regTypes(c)
+					b = b.AbortOnErrorTypes(sc...)
+					scribble(sc)
+				}
 			case "result":
 				b = b.AbortOnResult(c.V)
 			default:
@@ -639,7 +655,9 @@ func (env *Env) build(i int, s Spec) failsafe.Policy[int] {
 				env.ev(Event{Exe: exeOf(e.Context()), Seq0: s0, Policy: i, Name: "scheduled", HasStats: true, Attempts: e.Attempts(), Executions: e.Executions(), Retries: e.Retries(), Hedges: e.Hedges(),
 					LastV: e.LastResult(), LastE: e.LastError(), Delay: e.Delay})
 			})
-		return b.Build()
+		rp := b.Build()
+		b.OnRetry(strayAttempt).WithMaxRetries(0) // the builder is used again after Build: the policy built before keeps its own configuration
+		return rp
 	case KBreaker:
 		b := circuitbreaker.Builder[int]()
 		b = applyHandle(b, s.Handle)
@@ -674,6 +692,9 @@ func (env *Env) build(i int, s Spec) failsafe.Policy[int] {
 		b = b.OnSuccess(env.attemptEv(i, "success")).OnFailure(env.attemptEv(i, "failure")).
 			OnOpen(env.stateEv(i, "open")).OnClose(env.stateEv(i, "close")).OnHalfOpen(env.stateEv(i, "halfopen")).OnStateChanged(env.stateEv(i, "changed"))
 		cb := b.Build()
+		// (the builders of retry policies, timeouts, hedge policies and fallbacks are used again after Build,
+		// see below; Build() of breakers, bulkheads, rate limiters and cache policies shares the builder's
+		// configuration with the policy on the unchanged tree, which no listed property speaks about)
 		switch s.Pre {
 		case "open":
 			cb.Open()
@@ -710,7 +731,10 @@ func (env *Env) build(i int, s Spec) failsafe.Policy[int] {
 		env.Bulks[i] = bh
 		return bh
 	case KTimeout:
-		return timeout.Builder[int](s.Limit).OnTimeoutExceeded(env.doneEv(i, "timeout")).Build()
+		tb := timeout.Builder[int](s.Limit).OnTimeoutExceeded(env.doneEv(i, "timeout"))
+		to := tb.Build()
+		tb.OnTimeoutExceeded(strayDone)
+		return to
 	case KHedge:
 		b := hedgepolicy.BuilderWithDelay[int](s.HDelay).WithMaxHedges(s.MaxHedges)
 		if s.HDelays != nil {
@@ -722,16 +746,26 @@ func (env *Env) build(i int, s Spec) failsafe.Policy[int] {
 		for _, c := range s.Cancel {
 			switch c.K {
 			case "errs":
-				b = b.CancelOnErrors(append([]error{c.E}, c.Es...)...)
+				{
+					sc := regErrs(c)
+					b = b.CancelOnErrors(sc...)
+					scribble(sc)
+				}
 			case "types":
-				b = b.CancelOnErrorTypes(append([]any{c.T}, c.Ts...)...)
+				{
+					sc := regTypes(c)
+					b = b.CancelOnErrorTypes(sc...)
+					scribble(sc)
+				}
 			case "result":
 				b = b.CancelOnResult(c.V)
 			default:
 				b = b.CancelIf(c.F)
 			}
 		}
-		return b.OnHedge(env.attemptEv(i, "hedge")).Build()
+		hp := b.OnHedge(env.attemptEv(i, "hedge")).Build()
+		b.OnHedge(strayAttempt).WithMaxHedges(s.MaxHedges + 3)
+		return hp
 	case KFallback:
 		b := fallback.BuilderWithFunc(func(e failsafe.Execution[int]) (int, error) {
 			vrt.EnterUser()
@@ -752,7 +786,9 @@ func (env *Env) build(i int, s Spec) failsafe.Policy[int] {
 			return s.FbV, s.FbE
 		})
 		b = applyHandle(b, s.Handle)
-		return b.OnSuccess(env.attemptEv(i, "success")).OnFailure(env.attemptEv(i, "failure")).OnFallbackExecuted(env.doneEv(i, "fallback")).Build()
+		fb := b.OnSuccess(env.attemptEv(i, "success")).OnFailure(env.attemptEv(i, "failure")).OnFallbackExecuted(env.doneEv(i, "fallback")).Build()
+		b.OnFallbackExecuted(strayDone) // (handle conditions and OnSuccess/OnFailure live in a base structure that builders share with their policies)
+		return fb
 	case KCache:
 		c := &MapCache{M: map[string]int{}, env: env, Safe: env.Quiet}
 		for k, v := range s.Prepop {
@@ -771,7 +807,8 @@ func (env *Env) build(i int, s Spec) failsafe.Policy[int] {
 		case "v1|err": // two conditions registered: either one suffices
 			b = b.CacheIf(func(v int, err error) bool { return v == 1 }).CacheIf(func(v int, err error) bool { return err != nil })
 		}
-		return b.OnCacheHit(env.doneEv(i, "hit")).OnCacheMiss(env.attemptEv(i, "miss")).OnResultCached(env.attemptEv(i, "cached")).Build()
+		cp := b.OnCacheHit(env.doneEv(i, "hit")).OnCacheMiss(env.attemptEv(i, "miss")).OnResultCached(env.attemptEv(i, "cached")).Build()
+		return cp
 	}
 	panic("bad kind")
 }
@@ -954,3 +991,27 @@ func hedgeOffset(s Spec, k int) int64 {
 	}
 	return t
 }
+
+// regErrs / regTypes build the argument list of a registration call in a scratch slice that the
+// caller overwrites right afterwards (scribble), as code that configures several policies from one
+// reused slice does: a policy must keep the targets it was given, not the caller's slice.
+func regErrs(c Cond) []error { return append([]error{c.E}, c.Es...) }
+func regTypes(c Cond) []any  { return append([]any{c.T}, c.Ts...) }
+
+type scribbledErr struct{}
+
+func (scribbledErr) Error() string { return "scribbled over after registration" }
+
+func scribble[T any](sc []T) {
+	for i := range sc {
+		var x any = scribbledErr{}
+		sc[i] = x.(T)
+	}
+}
+
+// stray listeners are registered on a builder after the policy under test was built from it (code that
+// derives several policies from one builder does this): the policy built before must never call them.
+const strayMsg = "a listener registered on the builder after Build() was called by the policy built before: Build() does not give the policy a configuration of its own"
+
+func strayAttempt(failsafe.ExecutionEvent[int])  { vrt.Fail(strayMsg) }
+func strayDone(failsafe.ExecutionDoneEvent[int]) { vrt.Fail(strayMsg) }
